@@ -208,6 +208,36 @@ def run(rep, tier):
                 else:
                     rep.bad("C07.R3", fn, loc_of(ev), "false-return", "predicate wait returns false without stop request or error")
 
+    # the value a timed / stoppable predicate form returns is the predicate's value *now*: on every path the predicate is
+    # evaluated after the last wait (while the caller's lock is held again), not carried over from before the wait
+    from engine.core import forward
+    for fn in preds:
+        def is_pred(e):
+            return e.get("k") == "call" and (T(e) == "pred()" or callee_of(e) in ("pred", "?pred") or (e.get("op") == "()" and P(e.get("recv") or {}) == "pred"))
+
+        def is_wait(e):
+            return e.get("k") == "call" and callee_short(e) in ("wait", "wait_until", "wait_for") and not is_pred(e)
+        stale = []
+
+        def tr(st, e, pos, stale=stale):
+            if is_wait(e):
+                return "stale"
+            if is_pred(e):
+                return "fresh"
+            if e.get("k") == "return" and e.get("e") is not None:
+                v = strip(e["e"])
+                if not (v.get("k") == "lit") and st != "fresh":
+                    stale.append(e)
+            return st
+        if not any(is_pred(e) for _, _, e in fn.all_events()) or not any(is_wait(e) for _, _, e in fn.all_events()):
+            continue          # forwards to another predicate form
+        forward(fn, "none", tr, None, lambda a, b: a if a == b else "stale")
+        if stale:
+            rep.bad("C07.R3", fn, loc_of(stale[0]), "stale-predicate-value", "the predicate wait returns %s, a value of the predicate from before the last wait: after a timeout (or stop) the predicate is not "
+                    "re-evaluated under the re-acquired lock, so the call reports false although the condition became true before it returned" % T(stale[0]["e"]))
+        else:
+            rep.ok("C07.R3", fn, "every returned predicate value is evaluated after the last wait")
+
     vpreds = [fn for fn in D.fns if not fn.pattern and fn.parent == -1 and fn.raw.get("ret") == "void" and
               any(p["name"] == "pred" for p in fn.params)]
     if len(vpreds) < 2:
